@@ -2988,6 +2988,34 @@ def deployment_canary(seed, variant):
     return sim, stats
 
 
+@scenario
+def deployment_canary_offgrid(seed, variant):
+    """A healthy canary whose stage evaluation periods do not fall on the evaluation grid and do not convert to whole
+    nanoseconds exactly (4.1 s, 2.01 s, 8.2 s) — round-9 seed C07-17: a re-evaluation capped at the truncated stage end
+    re-schedules itself at a frozen clock."""
+    from happysimulator import CanaryDeployer, CanaryStage, ErrorRateEvaluator
+    from happysimulator.components.load_balancer import LoadBalancer, WeightedRoundRobin
+
+    _seed(seed)
+    v = variant % 3
+    factory = _server_factory(0.02, concurrency=2, bad_after=None)
+    servers = [factory(f"baseline{i}") for i in range(2)]
+    lb = LoadBalancer("lb", backends=servers, strategy=WeightedRoundRobin())
+    deployer = CanaryDeployer("canary_deployer", load_balancer=lb, server_factory=factory,
+                              stages=[CanaryStage(0.1, [4.1, 2.01, 1.3][v]), CanaryStage(0.5, [2.01, 4.1, 8.2][v]), CanaryStage(1.0, 1.0)],
+                              metric_evaluator=ErrorRateEvaluator(max_error_rate=0.5),
+                              evaluation_interval=[0.5, 0.25, 0.5][v])
+    src = req_source("src", lb, [40, 50, 30][v], poisson=False, stop_after=12.0)
+    sim = Simulation(sources=[src], entities=[lb, deployer, *servers], duration=14.0)
+    sim.schedule(Event.once(time=T(0.5), event_type="Deploy", fn=lambda e: deployer.deploy()))
+
+    def stats():
+        return {"deployer": pub(deployer), "state": _clean(deployer.state), "lb": _clean(lb.stats),
+                "backends": [b.name for b in lb.all_backends]}
+
+    return sim, stats
+
+
 # ---------------------------------------------------------------------------
 # infrastructure
 # ---------------------------------------------------------------------------
